@@ -51,7 +51,7 @@ def spec_bytes(spec):
     return None
 
 
-def materialize(sc, files):
+def materialize(sc, files, modes=None):
     """Create the tree in dict order (creation order decides readdir order on tmpfs), then give every
     entry an old, distinct mtime so that any later write / touch is visible in the snapshot."""
     for rel, spec in files.items():
@@ -73,6 +73,10 @@ def materialize(sc, files):
         t = OLD_MTIME + i
         os.utime(p, (t, t), follow_symlinks=False)
     os.utime(sc.root, (OLD_MTIME - 1, OLD_MTIME - 1))
+    # permission bits last (case["modes"]: rel -> octal string); they do not stop a process that may
+    # write despite them (root), which is what the model asks the kernel about, not the bits
+    for rel, m in (modes or {}).items():
+        os.chmod(os.path.join(sc.root, rel), int(m, 8))
 
 
 # ------------------------------------------------------------------------------------------------
@@ -226,6 +230,9 @@ def model(case, lf):
             cls = "invalid-utf8"
         else:
             raise svlib.HarnessError(f"unexpected libfmt reply {r[0]}")
+        mode = (case.get("modes") or {}).get(rel)
+        if mode is not None and not (int(mode, 8) & 0o200) and os.geteuid() != 0 and not opts.get("check") and cls == "unformatted":
+            cls, expected = "eacces-write", data
         if inj and inj[0] == rel:
             if inj[1] == 1:
                 cls, expected = "eacces-read", data
@@ -284,7 +291,7 @@ def execute(case, exit_trace=False):
     if inject and not have_strace:
         return {"skipped": "strace unavailable (fault injection impossible)"}
     with clilib.Scratch(prefix="sv-ft-") as sc:
-        materialize(sc, case["files"])
+        materialize(sc, case["files"], case.get("modes"))
         before = clilib.snapshot(sc.root)
         extra = dict(case.get("env") or {})
         tr_path = None
